@@ -537,7 +537,7 @@ pub fn gen_trigger(rng: &mut Rng, choice: TrigChoice, n_ops: usize) -> TrigSpec 
             n: *rng.pick(&[1u64, 1, 2, 5, 7, 60]),
             modulate: rng.chance(1, 2),
         },
-        3 => TrigSpec::Time { unit: 's', n: 0, modulate: false },
+        3 => TrigSpec::Time { unit: 's', n: 0, modulate: rng.chance(1, 2) },
         _ => {
             let len = rng.range(0, n_ops as u64 + 2);
             let answers: String = (0..len)
@@ -618,7 +618,7 @@ pub fn gen_seq_case(rng: &mut Rng, thorough: bool, choice: TrigChoice) -> String
         }
     }
     let is_time = matches!(trig, TrigSpec::Time { .. });
-    let faults_ok = append && roll.has_hook() && choice == TrigChoice::Any;
+    let faults_ok = roll.has_hook() && choice != TrigChoice::Startup;
     let case = Case { append, pre_active, pre_arch, trig, roll, clock0: 1_700_000_000 + rng.below(200) as i64 };
     let mut budget: u64 = if thorough { 14000 } else { 7000 };
     let mut ops = vec![];
